@@ -338,6 +338,44 @@ NEAR_MISSES = ["(50,0)", "(0,50)", "(50,50)", "+256", "128", "-257", "-0", "<adj
                "<RESERVE_707>", "<RESERVE_1596>", "TARGET_", "north", "<XX", "<->", ";;", "STEP ", "(-1,0)", "(00,1)", "+00", "0.0"]
 
 
+def _variants(tok: str):
+    """strings one small edit away from a vocabulary token (what a typo, another spelling convention or a truncated stream produces)"""
+    out = {tok[1:], tok[:-1], tok.lower(), tok.upper(), tok + tok[-1], tok[0] + tok, tok.replace("_", ""), tok.replace("_", "-"), "<" + tok + ">",
+           tok.strip("<>"), tok.strip("()"), tok.replace(",", ";"), tok.replace(",", "."), tok.replace("+", "-"), tok.replace("-", "+")}
+    if tok.startswith("<") and tok.endswith(">") and "_" in tok:
+        # initials, as in <ADJLIST_START> -> <A_S>, and single words of the name
+        words = tok[1:-1].split("_")
+        out |= {"<" + "_".join(w[:1] for w in words) + ">", "<" + "".join(w[:1] for w in words) + ">", "<" + words[0] + ">", "<" + words[-1] + ">"}
+    return {v for v in out if v and v.split() == [v]}
+
+
+def _near_miss_cases(shard, nshards):
+    """every vocabulary token, every variant that is not itself in the vocabulary; plus the names and short forms the library itself
+    uses for its special tokens elsewhere (container field names, abbreviations)"""
+    g = golden()
+    known = set(g)
+    extra = set()
+    try:
+        from maze_dataset.constants import SPECIAL_TOKENS
+
+        for key in list(SPECIAL_TOKENS):
+            extra.add(str(key))
+            try:
+                extra.add(str(SPECIAL_TOKENS.get_abbrev(key)))
+            except Exception:  # noqa: BLE001
+                pass
+    except Exception:  # noqa: BLE001
+        pass
+    k = 0
+    for i, tok in enumerate(g):
+        for v in sorted(_variants(tok) | (extra if i == 0 else set())):
+            if v in known:
+                continue
+            k += 1
+            if k % nshards == shard:
+                yield {"vocab": "modular" if k % 4 else [MODES[k % len(MODES)], 5], "token": v, "prefix_ids": [i] if k % 3 == 0 else []}
+
+
 @st.composite
 def _unknown(draw):
     case = {"vocab": draw(_vocab_st()), "prefix_ids": draw(st.lists(st.integers(0, 4095), max_size=4))}
@@ -365,5 +403,6 @@ def subs(tier: str):
                                                     "resize": st.lists(st.integers(1, 30), max_size=3), "touch": st.sampled_from([None, 0, 1, 2])}),
             examples=80 if q else 3000),
         Sub("sequences", check_seq, "hypothesis", strategy=_seq, examples=250 if q else 15000),
+        Sub("near-miss-tokens", check_unknown, "exhaustive", cases=_near_miss_cases),
         Sub("unknown", check_unknown, "hypothesis", strategy=_unknown, examples=150 if q else 8000),
     ]
